@@ -999,20 +999,18 @@ class Steward():
         data['version'] = "HTTP/{0}.{1}".format(*self.requestant.version)
         data['method'] = self.requestant.method
 
-        pathSplits = urlsplit(unquote(self.requestant.url))
-        path = pathSplits.path
-        data['path'] = path
+        # reuse what requestant already split and validated since another
+        # urlsplit of the unquoted url may raise ValueError
+        data['path'] = self.requestant.path
 
-        query = pathSplits.query
         qargs = dict()
-        qargs, query = httping.updateQargsQuery(qargs, query)
+        qargs, query = httping.updateQargsQuery(qargs, self.requestant.query)
         data['qargs'] = qargs
 
-        fragment = pathSplits.fragment
-        data['fragment'] = fragment
+        data['fragment'] = self.requestant.fragment
 
         data['headers'] = list(self.requestant.headers.items())  # copy.copy(self.requestant.headers)  # make copy
-        data['body'] = self.requestant.body.decode('utf-8')
+        data['body'] = self.requestant.body.decode('utf-8', 'replace')  # body may be binary
         data['data'] = copy.copy(self.requestant.data)  # make copy
 
         msg = self.responder.build(status=200, data=data)
